@@ -50,6 +50,11 @@ def sh(cmd, timeout=1800, cwd=ROOT, env=None, stdin=None, check=False):
         if isinstance(so, bytes):
             so = so.decode(errors="replace")
         rc, out = 124, so + "\n[timeout after %ss]" % timeout
+    dt = time.time() - t0
+    if dt > 0.25 * timeout:
+        # visible early warning: a stage that uses a quarter of its time limit on an idle machine
+        # will trip it on a loaded one
+        log("[slow] %.0fs of a %ss limit: %s" % (dt, timeout, (cmd if isinstance(cmd, str) else " ".join(map(str, cmd)))[:160]))
     if check and rc != 0:
         raise RuntimeError("command failed (%s): %s\n%s" % (rc, cmd, out[-4000:]))
     return rc, out
